@@ -72,6 +72,7 @@ func isPointOp(typ, m string) bool {
 func main() {
 	env, rep := vh.Parse("C10")
 	if *childMode != "" {
+		initDeadFromEnv()
 		runChild(*childMode, env)
 		return
 	}
@@ -137,7 +138,7 @@ func sequential(env *vh.Env, rep *vh.Report, rng *vh.Rng, fams []*family) {
 	var items []item
 	var lines []string
 	for _, f := range fams {
-		for h := 0; h < nHist; h++ {
+		for h := 0; h < nHist && !isDead(f.typ); h++ {
 			n := 1 + rng.Intn(nOps)
 			it := item{f: f}
 			tgt := f.newTarget()
@@ -170,6 +171,7 @@ func sequential(env *vh.Env, rep *vh.Report, rng *vh.Rng, fams []*family) {
 				rep.Fail("property", f.typ+"."+kindMethod(it.calls[k].Kind)+":blocks-forever",
 					fmt.Sprintf("single-threaded %s: call %d %v did not return within 10 s", f.typ, k, it.calls[k]),
 					map[string]interface{}{"type": f.typ, "calls": it.calls[:k+1]})
+				markDead(f.typ)
 				break // this type hangs: its remaining histories would only wait for the watchdog
 			}
 			it.rets = rets
@@ -206,9 +208,9 @@ func sequential(env *vh.Env, rep *vh.Report, rng *vh.Rng, fams []*family) {
 			}
 			if exp != it.rets[k] {
 				kind := "correspondence"
-				key := it.f.typ + "." + c.Kind + ":sequential-return"
+				key := it.f.typ + "." + kindMethod(c.Kind) + ":sequential-return"
 				if it.rets[k] == "panic" {
-					kind, key = "property", it.f.typ+"."+c.Kind+":panic"
+					kind, key = "property", it.f.typ+"."+kindMethod(c.Kind)+":panic"
 				}
 				rep.Fail(kind, key,
 					fmt.Sprintf("single-threaded %s: call %d %v returned %q, the sequential model predicts %q", it.f.typ, k, c, it.rets[k], exp),
@@ -264,6 +266,9 @@ func runStress(thorough bool, seed uint64, fams []*family, mark func(string)) *s
 		rounds = 800
 	}
 	for _, f := range fams {
+		if isDead(f.typ) {
+			continue
+		}
 		mark("##STRESS " + f.typ)
 		directed := directedRounds(f)
 		nDirected := 120
@@ -307,6 +312,7 @@ func runStress(thorough bool, seed uint64, fams []*family, mark func(string)) *s
 			if dead {
 				out.Fails = append(out.Fails, stressFail{f.typ, f.typ + ":stress-deadlock",
 					fmt.Sprintf("%d goroutines × %d point operations on one %s did not finish within 10 s", nG, nOps, f.typ), nil})
+				markDead(f.typ)
 				break // the remaining rounds of this type would only wait for the watchdog
 			}
 			if overlapping(hist) {
